@@ -21,7 +21,6 @@ RULES = [
 UNIT = dict(
     name="recount",
     props=["C15", "C06"],
-    implicit_props=["C15"],
     prelude=["core_types.rs", "str_ext.rs", "engine.rs"],
     assumptions=[
         "R14 region: the body of `for (topic, info_arc) in reader_guard.iter()` for one topic; the iteration itself (std HashMap iterator) and the final `*guard = counts` are not in the unit",
